@@ -233,6 +233,18 @@ Section EvalBlind.
         cbn [fst snd] in Hcc, Hv.
         rewrite (Hcc HPc c1 c2 Hc), (Hv HPv c1 c2 Hc), (IHr HPr). reflexivity.
     - (* EAgg *) apply Hagg. exact Hc.
+    - (* ETuple *)
+      f_equal.
+      match goal with HF : Forall _ items, HP : forallb blind_expr items = true |- _ =>
+        revert HP; induction HF as [|x rest Hx _ IHr]; intros HPw; [reflexivity|];
+        cbn [forallb] in HPw; apply Bool.andb_true_iff in HPw; destruct HPw as [HPx HPr]
+      end.
+      destruct (slot_form x); [reflexivity|].
+      rewrite <- (Hx HPx _ _ Hc).
+      destruct (eval E1 c1 x) as [y| | |] eqn:Hy; cbn [bind]; try reflexivity.
+      assert (Hyb := Hrawb x HPx _ _ Hy).
+      destruct y; cbn [bind]; rewrite ?(IHr HPr); try reflexivity.
+      cbn [raw_blind] in Hyb. rewrite (reader_blind path _ _ Hyb Hc). reflexivity.
   Qed.
 
   Lemma eval_cond_blind c c1 c2 :
